@@ -581,7 +581,7 @@ def template(rng):
         P += "/" + rng.choice(L2)
     v = lambda: rand_val(rng)  # noqa: E731
     k = rng.choice(AKEYS)
-    t = rng.randrange(9)
+    t = rng.randrange(11)
     B = ["patch"]
     if t == 0:  # replace-then-touch across three containers
         return [["set", P + "/x", v()], B, ["del", P], ["grp", P], ["set", P + "/y", v()], B, rng.choice([["set", P + "/a", v()], ["sattr", P, k, v()], ["grp", P + "/b/a"], ["del", P + "/y"]])]
@@ -601,6 +601,13 @@ def template(rng):
         return [["set", P + "/a", v()], ["sattr", P + "/a", k, v()]] + ([B] if rng.random() < 0.7 else []) + [[kind, P, Q]]
     if t == 7:  # delete in one patch, recreate same name with other kind in a later one, then delete again
         return [["grp", P + "/a"], B, ["del", P], B, ["set", P, v()], B, ["del", P], ["grp", P + "/a/y"]]
+    if t == 9:  # entity of an older container overwritten AND removed again inside one later container, then used again
+        node = rng.choice([["grp", P], ["set", P, v()]])
+        if rng.random() < 0.6:
+            return [node, ["sattr", P, k, v()], B, ["sattr", P, k, v()], ["dattr", P, k]] + ([B] if rng.random() < 0.5 else []) + [rng.choice([["sattr", P, "m", v()], ["sattr", P, k, v()], ["dattr", P, k]])]
+        return [node, B, ["del", P], rng.choice([["grp", P], ["set", P, v()]]), ["del", P]] + ([B] if rng.random() < 0.5 else []) + [rng.choice([["set", P + "/a", v()], ["grp", P], ["set", P, v()]])]
+    if t == 10:  # deletion committed, data created at a nested path below the deleted name in a later container
+        return [rng.choice([["set", P + "/x/y", v()], ["set", P, v()], ["grp", P]]), B, ["del", P], B] + ([B] if rng.random() < 0.3 else []) + [["set", P + rng.choice(["/a", "/a/y", "/x/y"]), v()], B, ["set", P + "/b/z", v()]]
     # attribute deleted and re-set across containers on a group
     return [["grp", P], ["sattr", P, k, v()], B, ["dattr", P, k], B, ["sattr", P, k, v()], B, ["dattr", P, k]]
 
@@ -632,6 +639,47 @@ def gen_history(rng, nops, maxd=4):
     return ops
 
 
+def gen_focus(rng):
+    """dense history on ONE entity: a single attribute (one node, one or two keys) or a single
+    name with its subtree (three nested paths); few operations, frequent boundaries, so that every
+    short order of create / overwrite / remove / boundary on the same entity is likely to occur"""
+    P = "/" + rng.choice(L1) + ("/" + rng.choice(L2) if rng.random() < 0.3 else "")
+    v = lambda: rand_val(rng)  # noqa: E731
+    ops = []
+    if rng.random() < 0.5:  # attribute focus
+        ops.append(rng.choice([["grp", P], ["set", P, v()], ["set", P + "/x", v()]]))
+        tgt = rng.choice([P, P, "/"])
+        for _ in range(rng.randrange(4, 12)):
+            r = rng.random()
+            if r < 0.3:
+                ops.append(["sattr", tgt, "k", v()])
+            elif r < 0.55:
+                ops.append(["dattr", tgt, "k"])
+            elif r < 0.8:
+                ops.append(["patch"])
+            elif r < 0.9:
+                ops.append(rng.choice([["sattr", tgt, "m", v()], ["dattr", tgt, "m"]]))
+            else:
+                ops += [["del", P], rng.choice([["grp", P], ["set", P, v()]])]
+    else:  # name focus
+        Q = [P, P + "/x", P + "/x/y"]
+        for _ in range(rng.randrange(4, 12)):
+            r = rng.random()
+            if r < 0.3:
+                ops.append(["set", rng.choice(Q + [P + "/b"]), v()])
+            elif r < 0.4:
+                ops.append(["grp", rng.choice(Q)])
+            elif r < 0.65:
+                ops.append(["del", rng.choice(Q[:2] + [P])])
+            elif r < 0.9:
+                ops.append(["patch"])
+            else:
+                ops.append(["sattr", rng.choice(Q), "k", v()])
+    while sum(1 for o in ops if o[0] == "patch") > 6:
+        ops.remove(["patch"])
+    return ops
+
+
 def enum_small():
     """all histories of length <= 3 over {a,b}-paths of depth <= 2 with set/grp/del/sattr/dattr/boundary"""
     import itertools
@@ -651,7 +699,7 @@ def gen_cases(ctx, quick=None):
     quick = ctx.quick if quick is None else quick
     rng = ctx.rng
     cases = []
-    n = 260 if quick else 6000
+    n = 200 if quick else 6000
     for i in range(n):
         nops = rng.randrange(8, 31) if quick else rng.randrange(8, 41)
         cases.append(dict(ops=gen_history(rng, nops)))
@@ -666,6 +714,9 @@ def gen_cases(ctx, quick=None):
             sim.apply(op)
             ops.append(op)
         cases.append(dict(ops=ops))
+    # dense histories on a single attribute / a single name
+    for i in range(80 if quick else 2000):
+        cases.append(dict(ops=gen_focus(rng)))
     return cases
 
 
@@ -687,7 +738,7 @@ def run(ctx):
     _tmp_root()
     ctx.rule = ("cases: operation histories (set-dataset, create-group, delete, set-attr, del-attr, copy, move, commit+create-patch boundary) over "
                 "paths of depth <= 4 on 2-3 colliding keys per level (+ exotic printable-ASCII keys), values and attribute values from int64 / uint8 / bool scalars, strings (also empty and non-alphanumeric), 1-d and 2-d int arrays, opaque scalars of width 1-3 around the deletion marker (the marker itself excluded: C17), opaque arrays and the null dataspace, 0-6 boundaries at random positions, with the "
-                "shapes named by the property spliced in as templates. Each history is applied to a real IH5Record and a real h5py.File in lock-step; "
+                "shapes named by the property spliced in as templates, plus dense short histories on one attribute / one name (set, overwrite, remove, boundary in every order). Each history is applied to a real IH5Record and a real h5py.File in lock-step; "
                 "after every step outcome and full dump are compared (oracle) and both are compared with the Lean models (drv_ov). "
                 "Non-trivial = tagged: replace-then-touch across >=3 containers, delete-then-create-below, attrs on nodes of older containers, "
                 "copy into own subtree, copy/move with missing destination parents, >=3 containers, failing operations per kind.")
@@ -711,6 +762,7 @@ def run(ctx):
     # a first small batch made of the named shapes only, then the rest in chunks; stop at the first
     # chunk with oracle hits (the verdict is a VIOLATION anyway and hanging operations are costly)
     smoke = [dict(ops=[list(o) for o in template(ctx.rng)] + [["patch"], ["set", "/c/x/y", "i1"]]) for _ in range(24)]
+    smoke += [dict(ops=gen_focus(ctx.rng)) for _ in range(40)]
     batches = [smoke] + [cases[i : i + 400] for i in range(0, len(cases), 400)]
     cases = smoke + cases
     for b in batches:
